@@ -1,0 +1,14 @@
+//go:build verif
+
+package avro
+
+// VerifHook, when set, is called at named points inside critical sections and
+// allocation paths. It exists only in builds with -tags verif and is used by
+// the verification harness to observe and to schedule those points.
+var VerifHook func(point string)
+
+func verifPoint(p string) {
+	if h := VerifHook; h != nil {
+		h(p)
+	}
+}
